@@ -53,7 +53,15 @@ def motion(draw):
 def phrase(draw):
     """one motion, or a find/till followed (possibly after a reposition) by its repeats ; and , - the combination in which
     the reversed direction and the t/T fix-up interact (a seeded change there was missed by independent single motions)"""
-    if draw(st.integers(0, 4)) != 0:
+    k = draw(st.integers(0, 5))
+    if k == 5:
+        # N| (any column: inside a tab, on the second cell of a wide character, beyond the end) followed by vertical motions,
+        # which must keep the REQUESTED column
+        out = [["|", draw(st.integers(1, 40)), None]]
+        for _ in range(draw(st.integers(1, 3))):
+            out.append([draw(st.sampled_from(["j", "k", "j", "k", "+", "-", "l", "$"])), draw(st.sampled_from([0, 0, 2, 3])), None])
+        return out
+    if k != 0:
         return [draw(motion())]
     out = [[draw(st.sampled_from("fFtT")), draw(st.sampled_from([0, 0, 2])), draw(st.sampled_from(CHARS))]]
     if draw(st.booleans()):
